@@ -22,7 +22,7 @@ RULE = (
     "graph, equal or different inputs, each with its own max_concurrency), map; interleaving of concurrent runs by seeded delays, hold-open release and "
     "ready-shuffle. Reference = the same operation executed alone on freshly compiled objects. Non-trivial = >=2 runs overlapped in simulated time or a "
     "mutating function ran in >=2 runs; distinct = digest of (program shape, history, interleaving)."
-    ' Also: defaults that are dicts holding a mutable value, part of the inputs passed as keyword arguments, structurally identical graphs with different entry-point configuration on shared runners, a mapping node whose inner graph binds an object (clone True/False/list; wrapper input renamed or not); cache-enabled runners (shared or per-runner InMemoryCache) with cacheable mutating-default nodes.'
+    ' Also: defaults that are dicts holding a mutable value, part of the inputs passed as keyword arguments, structurally identical graphs with different entry-point configuration on shared runners, a mapping node whose inner graph binds an object (clone True/False/list; wrapper input renamed or not); cache-enabled runners (shared or per-runner InMemoryCache) with cacheable mutating-default nodes; a run of a concurrent batch cancelled by a caller-side timeout (asyncio.wait_for on the virtual clock).'
 )
 ASSUMPTIONS = ["node functions mutate only their default-valued arguments; bound and provided objects are only read"]
 
@@ -73,7 +73,9 @@ def gen_case(rng: random.Random, tier: str) -> dict:
             x0 = rng.randint(0, 2)
             ops.append({
                 "op": "batch",
-                "runs": [{"g": rng.randrange(2), "runner": rng.randrange(3), "x": x0 if same_x else rng.randint(0, 2), "k": rng.choice([None, 1, 2, 3]), "kw": rng.random() < 0.3, "ep": rng.random() < 0.25} for _ in range(n)],
+                "runs": [{"g": rng.randrange(2), "runner": rng.randrange(3), "x": x0 if same_x else rng.randint(0, 2), "k": rng.choice([None, 1, 2, 3]), "kw": rng.random() < 0.3, "ep": rng.random() < 0.25,
+                          # the caller gives up on this run after t simulated seconds (asyncio.wait_for): the others must not notice
+                          "cancel_after": rng.choice([0.5, 1.5, 2.5]) if rng.random() < 0.15 else None} for _ in range(n)],
                 "cfg": gen.gen_async_cfg(rng),
             })
         else:
@@ -265,7 +267,12 @@ def run_case(doc: dict) -> dict:
                     runner = pool.async_runners[r_["runner"]]
                     g = (pool.graphs_ep if r_.get("ep") else pool.graphs)[(r_["g"], "async")]
                     kw = dict({"max_concurrency": r_["k"]} if r_["k"] else {}, **kwis[j])
-                    facs.append(lambda runner=runner, g=g, i=inps[j], kw=kw: runner.run(g, i, **kw))
+                    if r_.get("cancel_after") is not None:
+                        import asyncio
+
+                        facs.append(lambda runner=runner, g=g, i=inps[j], kw=kw, t=r_["cancel_after"]: asyncio.wait_for(runner.run(g, i, **kw), timeout=t))
+                    else:
+                        facs.append(lambda runner=runner, g=g, i=inps[j], kw=kw: runner.run(g, i, **kw))
                 h0 = len(rt.history)
                 outs = call_async(rt, facs, shuffle_seed=op["cfg"].get("shuffle"), call_ids=[f"op{oi}c{j}" for j in range(len(facs))], limits=[r_["k"] for r_ in op["runs"]])
                 res["runs"] += len(facs)
@@ -283,6 +290,10 @@ def run_case(doc: dict) -> dict:
                     elif h["k"] in ("exit", "raise"):
                         open_calls[h["c"]] = open_calls.get(h["c"], 0) - 1
                 for j, (out, r_) in enumerate(zip(outs, op["runs"])):
+                    if r_.get("cancel_after") is not None and out["status"] == "raised" and out["error"] and out["error"][0] in ("TimeoutError", "CancelledError"):
+                        res["stats"]["fault_run_cancelled_by_timeout"] = res["stats"].get("fault_run_cancelled_by_timeout", 0) + 1
+                        _caller_dict(f"{tag}#{j}", inps[j], keeps[j], viol)
+                        continue
                     _compare(f"{tag}#{j}", _summ(out), ref(r_["g"], r_["x"], "async", ep=bool(r_.get("ep"))), viol)
                     _caller_dict(f"{tag}#{j}", inps[j], keeps[j], viol)
                     if out["status"] in ("deadlock", "step_cap"):
